@@ -695,7 +695,7 @@ func runCase(c *vh.Ctx, m *vh.Model, k *txCase) {
 	}
 	c.Eval(k.class+"|"+outcome, k.class+"|"+outcome+"|"+k.price.String()+"|"+fmt.Sprint(k.limit))
 	c.Correspond("core.ApplyTransaction~apply_transaction", req, observed, ans)
-	if composed && run.Panic == nil {
+	if composed && run.Panic == nil && !t.StepCapHit && !t.StepsExceedGas {
 		obsI := observed
 		if run.Err == nil {
 			obsI = stripKeys(observed, "state") + " state=" + DumpContent(sdb, k.u, false)
@@ -855,6 +855,12 @@ func runCase(c *vh.Ctx, m *vh.Model, k *txCase) {
 		}
 		if t.GasLeft > k.limit-intr || t.GasLeft > t.GasGiven {
 			c.Violate("tx-gas-left-exceeds-limit/"+k.sc.name, fmt.Sprintf("the execution ended with %d gas, it was given %d (limit %d, intrinsic %d)", t.GasLeft, t.GasGiven, k.limit, intr), replay)
+		}
+		if t.StepCapHit {
+			c.Count("undecided:step-cap-hit")
+		}
+		if t.StepsExceedGas {
+			c.Violate("more-instructions-than-gas/"+k.sc.name, fmt.Sprintf("the transaction executed more than %d instructions with a gas limit of %d (every instruction costs at least 1): run cancelled", t.Steps-1, k.limit), replay)
 		}
 		if t.GasIncreased != "" {
 			c.Violate("frame-gas-increases/"+k.sc.name, "inside one frame the gas available rose between two instructions (a callee handed back more than it was given plus the stipend paid for): "+t.GasIncreased, replay)
@@ -1152,7 +1158,11 @@ func runBlock(c *vh.Ctx, m *vh.Model, b *blockCase) {
 	var pused uint64
 	var perr error
 	pan, pv := vh.CatchPanic(func() {
-		pr, _, pused, perr = bc.Processor().Process(block, sdbB, vm.Config{})
+		guard := &StepGuard{Max: b.limit}
+		pr, _, pused, perr = bc.Processor().Process(block, sdbB, vm.Config{Debug: true, Tracer: guard})
+		if guard.Exceeded {
+			c.Violate("more-instructions-than-gas/block", "a transaction of the block executed more instructions than the block gas limit: run cancelled", map[string]interface{}{"class": b.class})
+		}
 	})
 	var observed string
 	switch {
